@@ -13,6 +13,259 @@ macro_rules! f {
     };
 }
 
+/// optional relationship field (debian_control::lossy::Relations: FromStr / Display).  The values are in the
+/// form Display prints: "name[:archqual] [(op version)] [[archs]] [<profiles>]", ", " between entries, " | "
+/// between alternatives.
+macro_rules! rel {
+    ($name:literal) => {
+        f!(
+            $name,
+            false,
+            ["debhelper-compat (= 13)", "libfoo-dev (>= 1.0), bar | baz (<< 2:3.0-1~)", "python3:any, gcc [amd64 !i386] <!nocheck>"],
+            Relations,
+            Some("foo bar")
+        )
+    };
+}
+/// optional free-text field (Option<String>)
+macro_rules! text {
+    ($name:literal, $a:literal, $b:literal) => {
+        f!($name, false, [$a, $b], Exact, None)
+    };
+}
+
+// ---- debian_control::lossy::Source (lossy/control.rs) ----------------------------------------------------
+const CONTROL_SOURCE: &[FieldSpec] = &[
+    f!("Source", true, ["foo", "bar-ng"], Exact, None),
+    rel!("Build-Depends"),
+    rel!("Build-Depends-Indep"),
+    rel!("Build-Depends-Arch"),
+    rel!("Build-Conflicts"),
+    rel!("Build-Conflicts-Indep"),
+    rel!("Build-Conflicts-Arch"),
+    text!("Standards-Version", "4.6.2", "4.7.0"),
+    f!("Homepage", false, ["https://example.com/", "https://example.org/projects/foo"], Normal, Some("not a url")),
+    text!("Section", "libs", "non-free/devel"),
+    f!("Priority", false, ["optional", "required", "extra"], Normal, Some("superfluous")),
+    text!("Maintainer", "Joe Bloggs <joe@example.com>", "Debian QA Group <packages@qa.debian.org>"),
+    text!("Uploaders", "Jane Doe <jane@example.com>", "Jane Doe <jane@example.com>, Bob Roe <bob@example.com>"),
+    text!("Architecture", "any", "all"),
+    // custom yes/no codec on both sides
+    f!("Rules-Requires-Root", false, ["no", "yes"], Exact, Some("binary-targets")),
+    text!("Testsuite", "autopkgtest", "autopkgtest-pkg-python"),
+    // vcs::ParsedVcs: FromStr never fails; Display prints "url[ -b branch][ [subpath]]"
+    f!(
+        "Vcs-Git",
+        false,
+        ["https://salsa.debian.org/debian/foo.git", "https://salsa.debian.org/debian/foo.git -b debian/main", "https://salsa.debian.org/debian/foo.git -b main [sub/dir]"],
+        Normal,
+        None
+    ),
+    f!("Vcs-Browser", false, ["https://salsa.debian.org/debian/foo", "https://example.com/"], Normal, Some("not a url")),
+];
+
+// ---- debian_control::lossy::Binary (lossy/control.rs) ----------------------------------------------------
+const CONTROL_BINARY: &[FieldSpec] = &[
+    f!("Package", true, ["foo", "libfoo1"], Exact, None),
+    rel!("Depends"),
+    rel!("Recommends"),
+    rel!("Suggests"),
+    rel!("Enhances"),
+    rel!("Pre-Depends"),
+    rel!("Breaks"),
+    rel!("Conflicts"),
+    rel!("Replaces"),
+    rel!("Provides"),
+    rel!("Built-Using"),
+    text!("Architecture", "any", "linux-any"),
+    text!("Section", "libs", "non-free/devel"),
+    f!("Priority", false, ["optional", "important", "standard"], Normal, Some("superfluous")),
+    f!("Multi-Arch", false, ["same", "foreign", "allowed"], Normal, Some("yes")),
+    f!("Essential", false, ["yes", "no"], Exact, Some("true")),
+    text!("Description", "a short description", "a short description\nA longer one\n.\nwith a second block"),
+];
+
+// ---- debian_control::lossy::apt::Release ------------------------------------------------------------------
+const APT_RELEASE: &[FieldSpec] = &[
+    f!("Codename", true, ["focal", "bookworm"], Exact, None),
+    // split_whitespace / join(" ")
+    f!("Components", true, ["main", "main restricted universe"], Words, None),
+    f!("Architectures", true, ["amd64", "amd64 arm64 riscv64"], Words, None),
+    f!("Description", true, ["Ubuntu 20.04 LTS", "Debian 12.5 Released 10 February 2024"], Exact, None),
+    f!("Origin", true, ["Ubuntu", "Debian"], Exact, None),
+    f!("Label", true, ["Ubuntu", "Debian-Security"], Exact, None),
+    f!("Suite", true, ["focal", "stable"], Exact, None),
+    f!("Version", true, ["20.04", "12.5"], Exact, None),
+    f!("Date", true, ["Thu, 23 Apr 2020 17:19:19 UTC", "Sat, 10 Feb 2024 11:07:25 UTC"], Exact, None),
+    // plain bool: FromStr / Display of bool
+    f!("NotAutomatic", true, ["false", "true"], Normal, Some("maybe")),
+    f!("ButAutomaticUpgrades", true, ["true", "false"], Normal, Some("maybe")),
+    f!("Acquire-By-Hash", true, ["true", "false"], Normal, Some("maybe")),
+];
+
+// ---- debian_control::lossy::apt::Source -------------------------------------------------------------------
+const APT_SOURCE: &[FieldSpec] = &[
+    f!("Directory", true, ["pool/main/f/foo", "pool/non-free/b/bar"], Exact, None),
+    text!("Description", "a short description", "a short description\nand a longer one"),
+    f!("Version", true, ["1.0-1", "2:1.2.3+dfsg-4~bpo12+1", "1.0"], Normal, Some("1.0_1")),
+    f!("Package", true, ["foo", "bar"], Exact, None),
+    // split_whitespace / join(" ")
+    f!("Binary", false, ["foo", "foo libfoo1 libfoo-dev"], Words, None),
+    text!("Maintainer", "Joe Bloggs <joe@example.com>", "Debian QA Group <packages@qa.debian.org>"),
+    // Build-Depends is a plain Option<String> here (the other three are Relations)
+    text!("Build-Depends", "debhelper-compat (= 13)", "debhelper-compat (= 13), libfoo-dev (>= 1.0)"),
+    rel!("Build-Depends-Indep"),
+    rel!("Build-Conflicts"),
+    rel!("Build-Conflicts-Indep"),
+    text!("Standards-Version", "4.6.2", "4.7.0"),
+    text!("Homepage", "https://example.com", "https://example.org/projects/foo"),
+    f!("Autobuild", false, ["true", "false"], Normal, Some("maybe")),
+    text!("Testsuite", "autopkgtest", "autopkgtest-pkg-python"),
+    text!("Vcs-Browser", "https://salsa.debian.org/debian/foo", "https://example.com/browse"),
+    text!("Vcs-Git", "https://salsa.debian.org/debian/foo.git", "https://example.com/foo.git -b main"),
+    text!("Vcs-Bzr", "https://code.example.com/foo/trunk", "lp:foo"),
+    text!("Vcs-Hg", "https://hg.example.com/foo", "https://hg.example.com/bar"),
+    text!("Vcs-Svn", "svn://svn.example.com/foo/trunk", "https://svn.example.com/bar"),
+    text!("Vcs-Darcs", "https://darcs.example.com/foo", "https://darcs.example.com/bar"),
+    text!("Vcs-Cvs", ":pserver:anonymous@cvs.example.com:/cvs foo", ":pserver:anonymous@cvs.example.com:/cvs bar"),
+    text!("Vcs-Arch", "https://arch.example.com/foo", "https://arch.example.com/bar"),
+    text!("Vcs-Mtn", "mtn.example.com org.example.foo", "mtn.example.com org.example.bar"),
+    f!("Priority", false, ["optional", "extra"], Normal, Some("superfluous")),
+    text!("Section", "libs", "non-free/devel"),
+    text!("Format", "3.0 (quilt)", "1.0"),
+    // split('\n') / join("\n"); mandatory (Vec<String>)
+    f!("Package-List", true, ["foo deb libs optional arch=any", "foo deb libs optional arch=any\nlibfoo1 deb libs optional arch=any\nfoo-doc deb doc optional arch=all"], Lines, None),
+];
+
+// ---- debian_control::lossy::apt::Package ------------------------------------------------------------------
+const APT_PACKAGE: &[FieldSpec] = &[
+    f!("Package", true, ["apt", "libfoo1"], Exact, None),
+    f!("Version", true, ["2.1.10", "2:1.2.3+dfsg-4~bpo12+1", "1.0-1"], Normal, Some("1.0_1")),
+    f!("Architecture", true, ["amd64", "all"], Exact, None),
+    text!("Maintainer", "APT Development Team <apt@lists.debian.org>", "Joe Bloggs <joe@example.com>"),
+    f!("Installed-Size", false, ["3524", "1"], Normal, Some("12k")),
+    rel!("Depends"),
+    rel!("Pre-Depends"),
+    rel!("Recommends"),
+    rel!("Suggests"),
+    rel!("Enhances"),
+    rel!("Breaks"),
+    rel!("Conflicts"),
+    rel!("Provides"),
+    rel!("Replaces"),
+    rel!("Built-Using"),
+    text!("Description", "commandline package manager", "commandline package manager\nThis package provides commandline tools\n.\nand more"),
+    text!("Homepage", "https://example.com", "https://example.org/projects/foo"),
+    f!("Priority", false, ["important", "optional"], Normal, Some("superfluous")),
+    text!("Section", "admin", "libs"),
+    // plain bool
+    f!("Essential", false, ["true", "false"], Normal, Some("maybe")),
+    text!("Tag", "admin::package-management", "admin::package-management, role::program"),
+    f!("Size", false, ["1234567", "0"], Normal, Some("-1")),
+    text!("MD5sum", "d41d8cd98f00b204e9800998ecf8427e", "0cc175b9c0f1b6a831c399e269772661"),
+    text!("SHA256", "e3b0c44298fc1c149afbf4c8996fb92427ae41e4649b934ca495991b7852b855", "ca978112ca1bbdcafac231b39a23dc4da786eff8147c4e72b9807785afee48bb"),
+    text!("Description-MD5", "9fb97a88cb7383934ef963352b53b4a7", "0cc175b9c0f1b6a831c399e269772661"),
+];
+
+// ---- debian_control::lossy::buildinfo::Buildinfo ----------------------------------------------------------
+const BUILDINFO: &[FieldSpec] = &[
+    f!("Format", true, ["1.0", "0.2"], Exact, None),
+    f!("Build-Architecture", true, ["amd64", "arm64"], Exact, None),
+    f!("Source", true, ["foo", "bar (1.0-1)"], Exact, None),
+    text!("Binary", "foo", "foo libfoo1 libfoo-dev"),
+    f!("Architecture", true, ["amd64", "all amd64 source"], Exact, None),
+    // custom codec = FromStr / Display of debversion::Version
+    f!("Version", true, ["1.0-1", "2:1.2.3+dfsg-4~bpo12+1", "1.0"], Normal, Some("1.0_1")),
+    text!("Binary-Only-Changes", "foo (1.0-1+b1) sid; urgency=low", "foo (1.0-1+b1) sid; urgency=low\n* Rebuild\n-- Builder <b@example.com>"),
+    text!("Checksums-Sha256", "e3b0c44298fc1c14 0 foo_1.0-1_amd64.deb", "e3b0c44298fc1c14 0 foo_1.0-1_amd64.deb\nca978112ca1bbdca 1 libfoo1_1.0-1_amd64.deb"),
+    text!("Checksums-Sha1", "da39a3ee5e6b4b0d 0 foo_1.0-1_amd64.deb", "da39a3ee5e6b4b0d 0 foo_1.0-1_amd64.deb\n86f7e437faa5a7fc 1 libfoo1_1.0-1_amd64.deb"),
+    text!("Checksums-Md5", "d41d8cd98f00b204 0 foo_1.0-1_amd64.deb", "d41d8cd98f00b204 0 foo_1.0-1_amd64.deb\n0cc175b9c0f1b6a8 1 libfoo1_1.0-1_amd64.deb"),
+    text!("Build-Origin", "Debian", "Ubuntu"),
+    text!("Build-Date", "Thu, 01 Jan 2015 00:00:00 +0000", "Fri, 02 Jan 2015 10:00:00 +0000"),
+    text!("Build-Tainted-By", "merged-usr-via-aliased-dirs", "merged-usr-via-aliased-dirs usr-local-has-programs"),
+    // PathBuf::from / Path::display: never fails
+    f!("Build-Path", false, ["/build/foo-1.0", "/build/reproducible-path/bar-2.0"], Normal, None),
+    // one NAME=value per line into a HashMap (printed in hash order: single entries only); a line without '=' is rejected
+    f!("Environment", false, ["LANG=C.UTF-8", "DEB_BUILD_OPTIONS=parallel=4"], Lines, Some("NOEQUALS")),
+    rel!("Installed-Build-Depends"),
+];
+
+// ---- debian_copyright::lossy::Header ----------------------------------------------------------------------
+const COPYRIGHT_HEADER: &[FieldSpec] = &[
+    f!("Format", true, ["https://www.debian.org/doc/packaging-manuals/copyright-format/1.0/", "http://dep.debian.net/deps/dep5"], Exact, None),
+    // split('\n') / join("\n")
+    f!("Files-Excluded", false, ["vendor/*", "vendor/*\ndocs/*.pdf\n*.min.js"], Lines, None),
+    text!("Source", "https://example.com/foo", "https://example.org/releases"),
+    text!("Upstream-Contact", "Joe Bloggs <joe@example.com>", "Jane Doe <jane@example.com>"),
+];
+
+// ---- debian_copyright::lossy::FilesParagraph --------------------------------------------------------------
+const COPYRIGHT_FILES: &[FieldSpec] = &[
+    // split_whitespace / join("\n")
+    f!("Files", true, ["*", "debian/*", "src/* docs/*.txt"], Words, None),
+    // License: FromStr never fails; "name" or "name\ntext" are printed back as they are
+    f!("License", true, ["GPL-3+", "MIT", "GPL-3+\nThis program is free software\n.\nmore text"], Normal, None),
+    // split('\n') / join("\n")
+    f!("Copyright", true, ["2019 John Doe", "2019 John Doe\n2020-2023 Jane Packager <jane@example.com>"], Lines, None),
+    text!("Comment", "Debian packaging", "Debian packaging\nis licensed under the GPL-3+."),
+];
+
+// ---- debian_copyright::lossy::LicenseParagraph ------------------------------------------------------------
+const COPYRIGHT_LICENSE: &[FieldSpec] = &[
+    f!("License", true, ["GPL-3+", "GPL-3+\nThis program is free software\n.\nmore text", "MIT\nPermission is hereby granted"], Normal, None),
+    text!("Comment", "a comment", "a comment\non two lines"),
+];
+
+// ---- dep3::lossy::PatchHeader -----------------------------------------------------------------------------
+const DEP3_PATCH_HEADER: &[FieldSpec] = &[
+    // parse_origin / format_origin: "[category, ]origin" with origin "commit:<id>" or anything else; never fails
+    f!("Origin", false, ["upstream, https://example.com/commit/1", "commit:abc123", "backport, commit:abc123"], Normal, None),
+    // "no" / "not-needed" / anything else = reference; never fails
+    f!("Forwarded", false, ["no", "not-needed", "https://lists.example.com/msg/1"], Normal, None),
+    text!("Author", "John Doe <john.doe@example.com>", "Jane Doe <jane@example.com>"),
+    text!("Reviewed-by", "Jane Doe <jane@example.com>", "John Doe <john.doe@example.com>"),
+    f!("Bug-Debian", false, ["https://bugs.debian.org/123456", "https://bugs.debian.org/cgi-bin/bugreport.cgi?bug=510219"], Normal, Some("not a url")),
+    // chrono::NaiveDate, "%Y-%m-%d" both ways
+    f!("Last-Update", false, ["2023-01-15", "1999-12-31"], Normal, Some("yesterday")),
+    f!("Applied-Upstream", false, ["commit:abc123", "1.2.3", "https://example.com/commit/1"], Normal, None),
+    f!("Bug", false, ["https://bugzilla.example.com/bug.cgi?id=123456", "https://example.com/"], Normal, Some("not a url")),
+    text!("Description", "fix a bug", "fix a bug\nThis fixes the bug\n.\nfor good"),
+];
+
+// ---- apt_sources::Repository ------------------------------------------------------------------------------
+const APT_REPOSITORY: &[FieldSpec] = &[
+    f!("Enabled", false, ["yes", "no"], Exact, Some("maybe")),
+    // HashSet<RepositoryType> printed in hash order: one type per value only
+    f!("Types", true, ["deb", "deb-src"], Words, Some("rpm")),
+    // split_whitespace -> Url, printed with url::Url::as_str joined by " "
+    f!("URIs", true, ["http://ports.ubuntu.com/", "https://deb.debian.org/debian", "http://ports.ubuntu.com/ https://deb.debian.org/debian"], Words, Some("nourl")),
+    f!("Suites", true, ["noble", "noble noble-updates noble-backports"], Words, None),
+    f!("Components", true, ["main", "main contrib non-free"], Words, None),
+    // Vec<String>, not Option: mandatory for the derive although APT treats it as optional
+    f!("Architectures", true, ["arm64", "amd64 arm64"], Words, None),
+    f!("Languages", false, ["en", "en de fr"], Words, None),
+    f!("Targets", false, ["Packages", "Packages Translations"], Words, None),
+    // read with the yes/no deserialiser; no serialiser configured
+    f!("PDiffs", false, ["yes", "no"], Exact, Some("maybe")),
+    f!("By-Hash", false, ["yes", "no", "force"], Normal, Some("maybe")),
+    // plain bool FromStr / Display
+    f!("Allow-Insecure", false, ["false", "true"], Normal, Some("maybe")),
+    f!("Allow-Weak", false, ["false", "true"], Normal, Some("maybe")),
+    f!("Allow-Downgrade-To-Insecure", false, ["false", "true"], Normal, Some("maybe")),
+    f!("Trusted", false, ["true", "false"], Normal, Some("maybe")),
+    // Signature: one line = key path; several lines = key block, which Display starts on the continuation line
+    // (compared as lines, so that the placement of the first line is not counted as a difference)
+    f!(
+        "Signed-By",
+        false,
+        ["/usr/share/keyrings/ubuntu-archive-keyring.gpg", "-----BEGIN PGP PUBLIC KEY BLOCK-----\n.\nmDMEY865UxYJKwYBBAHaRw8BAQdAd7Z0srwuhlB6JKFkcf4HU4SSS\n=5NZE\n-----END PGP PUBLIC KEY BLOCK-----"],
+        Lines,
+        None
+    ),
+    text!("X-Repolib-Name", "ubuntu-ports", "Debian Main"),
+    text!("Description", "Ubuntu ports", "Debian main archive"),
+];
+
 // ---- debian_control::lossy::ftpmaster::Removal ------------------------------------------------------
 const REMOVAL: &[FieldSpec] = &[
     f!("Date", true, ["Thu, 01 Jan 2015 00:00:00 +0000", "Fri, 02 Jan 2015 10:00:00 +0000"], Exact, None),
@@ -26,6 +279,17 @@ const REMOVAL: &[FieldSpec] = &[
 
 pub fn specs() -> Vec<ParaSpec> {
     vec![
+        para_spec!(debian_control::lossy::Source, "lossy::control::Source", CONTROL_SOURCE, items),
+        para_spec!(debian_control::lossy::Binary, "lossy::control::Binary", CONTROL_BINARY, items),
+        para_spec!(debian_control::lossy::apt::Release, "lossy::apt::Release", APT_RELEASE, eq),
+        para_spec!(debian_control::lossy::apt::Source, "lossy::apt::Source", APT_SOURCE, eq),
+        para_spec!(debian_control::lossy::apt::Package, "lossy::apt::Package", APT_PACKAGE, eq),
+        para_spec!(debian_control::lossy::buildinfo::Buildinfo, "lossy::buildinfo::Buildinfo", BUILDINFO, items),
         para_spec!(debian_control::lossy::ftpmaster::Removal, "lossy::ftpmaster::Removal", REMOVAL, items),
+        para_spec!(debian_copyright::lossy::Header, "lossy::copyright::Header", COPYRIGHT_HEADER, eq),
+        para_spec!(debian_copyright::lossy::FilesParagraph, "lossy::copyright::FilesParagraph", COPYRIGHT_FILES, eq),
+        para_spec!(debian_copyright::lossy::LicenseParagraph, "lossy::copyright::LicenseParagraph", COPYRIGHT_LICENSE, eq),
+        para_spec!(dep3::lossy::PatchHeader, "lossy::dep3::PatchHeader", DEP3_PATCH_HEADER, eq),
+        para_spec!(apt_sources::Repository, "apt_sources::Repository", APT_REPOSITORY, eq),
     ]
 }
